@@ -25,7 +25,7 @@ RULE = (
 )
 ASSUMPTIONS = [
     "NumPy 2 promotion rules (Python scalars weak) are the reference for dtypes",
-    "blockwise evaluation uses the same NumPy kernels, so float results are compared exactly (NaN == NaN)",
+    "blockwise evaluation uses the same NumPy kernels, so real and integer results are compared exactly (NaN == NaN); complex results with rtol 1e-13 (last-bit differences between NumPy's vector and scalar loops)",
 ]
 TECHNIQUE = "differential testing against NumPy over exhaustive chunkings of small shapes and Hypothesis-generated operands/ops"
 
@@ -136,8 +136,17 @@ def check(case):
         if not isinstance(r, da.Array):
             raise Reject("result is not a dask array")
         got = r.compute(scheduler="sync")
-    A.same_array(got, want, what=f"{case['op']}", sig=sig)
+    A.same_array(got, want, what=f"{case['op']}", sig=sig, **_tol(want))
     A.check_meta(r, got, sig=sig)
+
+
+def _tol(want):
+    """Complex products/quotients/powers: NumPy's vectorised loops and its scalar tail loop may round the last bit
+    differently (fused multiply-add), and which elements fall into the tail depends on the block length.  Real and integer
+    results are compared exactly."""
+    if np.asarray(want).dtype.kind == "c":
+        return dict(exact=False, rtol=1e-13, atol=1e-300)
+    return {}
 
 
 def nontrivial(case):
@@ -348,19 +357,19 @@ def check_kwargs(case):
     for i, (r, w) in enumerate(zip(lazies, wants)):
         with impl("compute alone", **sig), np.errstate(all="ignore"):
             got = r.compute(scheduler="sync")
-        A.same_array(got, w, what=f"{desc}: variant {i} alone", sig=dict(sig, stage="alone"))
+        A.same_array(got, w, what=f"{desc}: variant {i} alone", sig=dict(sig, stage="alone"), **_tol(w))
         A.check_meta(r, got, sig=sig)
     if len(lazies) > 1:
         with impl("compute jointly", **sig), np.errstate(all="ignore"):
             joint = dask.compute(*lazies, scheduler="sync")
         for i, (g, w) in enumerate(zip(joint, wants)):
-            A.same_array(g, w, what=f"{desc}: variant {i} computed jointly with the others", sig=dict(sig, stage="joint"))
+            A.same_array(g, w, what=f"{desc}: variant {i} computed jointly with the others", sig=dict(sig, stage="joint"), **_tol(w))
         with np.errstate(all="ignore"):
             tot_w = sum((i + 1) * w.astype("c16" if w.dtype.kind == "c" else "f8") for i, w in enumerate(wants))
             with impl("combine variants", **sig):
                 tot_d = sum((i + 1) * r.astype("c16" if r.dtype.kind == "c" else "f8") for i, r in enumerate(lazies))
                 got = tot_d.compute(scheduler="sync")
-        A.same_array(got, tot_w, what=f"{desc}: weighted sum of the variants", sig=dict(sig, stage="combined"))
+        A.same_array(got, tot_w, what=f"{desc}: weighted sum of the variants", sig=dict(sig, stage="combined"), **_tol(tot_w))
 
 
 @st.composite
